@@ -4,7 +4,7 @@ import os
 
 from .. import expr as E
 from .. import units
-from ..flow import ev_call
+from ..flow import ev_exit, ev_call
 
 PAIR = {"setType": "checkType", "putPod": "getPod", "putString": "getString", "putInt": "getInt", "putFixed": "getFixed",
         "putFd": "getFd", "putRaw": "getRaw"}
@@ -246,4 +246,41 @@ def run(ck):
         ck.ok("X2.int-is-pod", gi.where(), "getInt()/putInt() are getPod<int>/putPod<int>")
     else:
         ck.violation("X2.int-is-pod", "X2|int-is-pod", gi.where(), "getInt()/putInt() no longer move exactly one int pod")
+    ck.rule("X3 a message object re-armed for reading starts at part 0: TypedMsgHdr::prepForReading() (Ipc::Port reuses one TypedMsgHdr for every datagram) "
+            "reaches its end only after `offset = 0`, set there or in the clear() it calls on every path; a stale read offset makes getRaw()'s "
+            "`data.size - offset` wrap and the next message is decoded from the middle (or past the end) of the buffer")
+    rewind = lambda ev: ev.get("e") == "asg" and ev.get("op") == "=" and E.m_is_mem("Ipc::TypedMsgHdr::offset")(ev.get("lhs")) and E.const(ev.get("rhs")) == 0
+    cl = tm.fn(TM + "clear")
+    cfl = ck.flow(cl, markers={"rewound": rewind})
+    clear_rewinds = all(st.passed("rewound") for st in cfl.find(ev_exit()))
+    pfr = tm.fn(TM + "prepForReading")
+    pfl = ck.flow(pfr, markers={"rewound": (lambda ev: rewind(ev) or (clear_rewinds and ev_call(TM + "clear")(ev)))})
+    ck.require_passed("X3.reader-rearmed-at-offset-0", pfl, ev_exit(), "rewound", "end of prepForReading()", why="(the previous message's read offset survives into the next message)")
+
+    ck.rule("X4 SIBLING putString/getString: putString() sends the counted psize() bytes of the String, so getString() must build the String from the counted "
+            "bytes it received: the out-parameter is only ever modified by a call that is also given the received length (assign(buf, length) and the like). "
+            "A c-string assignment truncates a value with an embedded NUL although both ends counted it")
+    gs = tm.fn(TM + "getString")
+    ck.need(len(gs.params) == 1, "C58: TypedMsgHdr::getString signature changed")
+    OUT = gs.params[0]["d"]
+    ldefs = [n for n, ds in ck.local_defs(gs).items() if n.lower().startswith("len")]
+    lens = set(ldefs) | {"length"}
+    nmod = 0
+    for b in gs.blocks.values():
+        for ev in b["ev"]:
+            x = E.strip(ev.get("x")) if ev.get("e") == "call" else None
+            if not (isinstance(x, dict) and "o" in x and E.m_is_ref(OUT)(x["o"]) and not x.get("cm")):
+                continue
+            nmod += 1
+            counted = any(E.strip(a).get("k") == "ref" and E.strip(a).get("d") in lens for a in x.get("a", []))
+            if counted or x.get("f", "").split("::")[-1] in ("clean", "clear"):
+                ck.ok("X4.string-counted-both-ways", gs.where(ev["l"]), "getString: %s(..., length)" % x.get("f"))
+            else:
+                ck.violation("X4.string-counted-both-ways", "X4|getString|%s" % x.get("f", "?").split("::")[-1], gs.where(ev["l"]), "TypedMsgHdr::getString builds the result with %s, "
+                             "which is not given the received length: a string part with an embedded NUL octet is truncated although putString() sent psize() bytes" % E.key(x)[:80])
+    ck.need(nmod >= 1, "C58: getString no longer assigns its out-parameter through a member call")
+    ps = tm.fn(TM + "putString")
+    sizes = [E.strip(ev["x"]) for b in ps.blocks.values() for ev in b["ev"] if ev.get("e") == "call" and E.strip(ev["x"]).get("f", "").split("::")[-1] in ("psize", "size", "length")]
+    ck.need(sizes, "C58: putString no longer sends a counted length")
+
     ck.assume("value round-trip follows from operation agreement plus memcpy semantics; it is not separately decided")
